@@ -14,6 +14,7 @@ package props
 import (
 	"bytes"
 	"encoding/json"
+	"errors"
 	"fmt"
 	"os"
 	"path/filepath"
@@ -36,11 +37,12 @@ import (
 )
 
 type c13Step struct {
-	Stmt   *model.Stmt `json:"stmt,omitempty"`
-	Select string      `json:"select,omitempty"` // a SELECT instead of a DDL/DML statement
-	ParkMs int         `json:"park_ms,omitempty"`
-	ParkAt int         `json:"park_at,omitempty"` // for statements that do not log: park at this cache access
-	IdleMs int         `json:"idle_ms,omitempty"` // pause after the statement
+	Stmt      *model.Stmt `json:"stmt,omitempty"`
+	Select    string      `json:"select,omitempty"` // a SELECT instead of a DDL/DML statement
+	ParkMs    int         `json:"park_ms,omitempty"`
+	ParkAt    int         `json:"park_at,omitempty"`    // park at this page lookup (statements that do not log, or ParkEarly)
+	ParkEarly bool        `json:"park_early,omitempty"` // park a logging statement at a page lookup instead of at its log write
+	IdleMs    int         `json:"idle_ms,omitempty"`    // pause after the statement
 }
 
 type c13Case struct {
@@ -54,7 +56,11 @@ func c13Gen(rt *rapid.T) c13Case {
 	db := model.NewDB()
 	var c c13Case
 	if rapid.Bool().Draw(rt, "smallcache") {
-		c.Cache = rapid.IntRange(10, 16).Draw(rt, "cache")
+		c.Cache = rapid.IntRange(8, 16).Draw(rt, "cache")
+		if rapid.Bool().Draw(rt, "biginserts") {
+			// statements that dirty (nearly) as many pages as the cache holds
+			cfg.RowCounts = []int{1, 9, 17, 40, 60}
+		}
 	}
 	n := rapid.IntRange(6, 14).Draw(rt, "nsteps")
 	parks := 0
@@ -74,6 +80,7 @@ func c13Gen(rt *rapid.T) c13Case {
 		if parks < 4 && rapid.IntRange(0, 1).Draw(rt, "park") == 0 {
 			st.ParkMs = rapid.SampledFrom([]int{120, 160, 230, 350}).Draw(rt, "parkms")
 			st.ParkAt = rapid.IntRange(1, 12).Draw(rt, "parkat")
+			st.ParkEarly = rapid.IntRange(0, 2).Draw(rt, "parkearly") == 0
 			parks++
 		}
 		c.Steps = append(c.Steps, st)
@@ -162,12 +169,26 @@ func c13Run(c c13Case, st *vlib.Stats) string {
 	sess := curGID()
 	var mu sync.Mutex
 	var violations []string
-	var parked, stmtIdx, cacheSets, parkAt, parkMs, didPark int64
+	var parked, stmtIdx, lookups, parkAt, parkMs, parkEarly, didPark int64
 	var flushesAfterPark int64
 	var lastParkEnd int64 // unix nanos
+	// a total order over hook events: a flusher event that falls between two
+	// storage accesses of one statement ran while that statement held its bracket
+	var seq, firstSess, lastSess, stmtWrites int64
+	var flusherSeqs []int64
+	var flusherWhat []string
+	noCreate := int64(0) // 1 while the running statement is not a CREATE TABLE
 	storage.VerifHook = func(point string, arg uint64) {
 		gid := curGID()
+		n := atomic.AddInt64(&seq, 1)
 		if gid == sess {
+			if atomic.LoadInt64(&firstSess) == 0 {
+				atomic.StoreInt64(&firstSess, n)
+			}
+			atomic.StoreInt64(&lastSess, n)
+			if (point == "page.write" || point == "header.write") && atomic.LoadInt64(&noCreate) == 1 {
+				atomic.AddInt64(&stmtWrites, 1)
+			}
 			ms := atomic.LoadInt64(&parkMs)
 			if ms == 0 || atomic.LoadInt64(&didPark) != 0 {
 				return
@@ -175,9 +196,9 @@ func c13Run(c c13Case, st *vlib.Stats) string {
 			hit := false
 			switch point {
 			case "wal.write":
-				hit = true
+				hit = atomic.LoadInt64(&parkEarly) == 0
 			case "page.fetch":
-				if atomic.AddInt64(&cacheSets, 1) == atomic.LoadInt64(&parkAt) && atomic.LoadInt64(&parkAt) > 0 {
+				if atomic.AddInt64(&lookups, 1) == atomic.LoadInt64(&parkAt) && atomic.LoadInt64(&parkAt) > 0 && atomic.LoadInt64(&parkEarly) == 1 {
 					hit = true
 				}
 			}
@@ -193,11 +214,13 @@ func c13Run(c c13Case, st *vlib.Stats) string {
 		// another goroutine: the flusher
 		switch point {
 		case "flush.begin", "page.write", "header.write":
+			mu.Lock()
+			flusherSeqs = append(flusherSeqs, n)
+			flusherWhat = append(flusherWhat, point)
 			if atomic.LoadInt64(&parked) != 0 {
-				mu.Lock()
-				violations = append(violations, fmt.Sprintf("%s on the flusher goroutine while statement %d was held open between its page changes and the end of its log append", point, atomic.LoadInt64(&stmtIdx)))
-				mu.Unlock()
+				violations = append(violations, fmt.Sprintf("%s on the flusher goroutine while statement %d was held open", point, atomic.LoadInt64(&stmtIdx)))
 			}
+			mu.Unlock()
 			if point == "flush.begin" {
 				if end := atomic.LoadInt64(&lastParkEnd); end != 0 && time.Now().UnixNano()-end < int64(60*time.Millisecond) {
 					atomic.AddInt64(&flushesAfterPark, 1)
@@ -217,27 +240,63 @@ func c13Run(c c13Case, st *vlib.Stats) string {
 
 	m := model.NewDB()
 	parkedDML := 0
+	stopped := false
 	for i, step := range c.Steps {
 		atomic.StoreInt64(&stmtIdx, int64(i))
-		atomic.StoreInt64(&cacheSets, 0)
+		atomic.StoreInt64(&lookups, 0)
 		atomic.StoreInt64(&didPark, 0)
+		atomic.StoreInt64(&firstSess, 0)
+		atomic.StoreInt64(&lastSess, 0)
+		atomic.StoreInt64(&stmtWrites, 0)
 		logs := step.Stmt != nil && step.Stmt.Kind != "create"
-		if logs {
-			atomic.StoreInt64(&parkAt, 0) // park at the log write
+		early := int64(0)
+		if !logs || step.ParkEarly {
+			early = 1
+		}
+		atomic.StoreInt64(&parkEarly, early)
+		atomic.StoreInt64(&parkAt, int64(step.ParkAt))
+		if step.Stmt != nil && step.Stmt.Kind == "create" {
+			atomic.StoreInt64(&noCreate, 0)
 		} else {
-			atomic.StoreInt64(&parkAt, int64(step.ParkAt))
+			atomic.StoreInt64(&noCreate, 1)
 		}
 		atomic.StoreInt64(&parkMs, int64(step.ParkMs))
 		var err error
 		if step.Stmt != nil {
-			m.Apply(*step.Stmt)
 			err = eng.ExecStmt(*step.Stmt)
 		} else {
 			_, err = eng.Query(step.Select)
 		}
 		atomic.StoreInt64(&parkMs, 0)
 		if err != nil {
+			if errors.Is(err, storage.ErrLRUCacheFull) && c.Cache > 0 {
+				// the statement's dirty set does not fit the small cache: outside the
+				// property (and a failing multi-row statement leaves the model behind) - stop here
+				st.Label("stopped-cache-full", 1)
+				stopped = true
+				break
+			}
 			return fmt.Sprintf("step %d failed: %v", i, err)
+		}
+		if step.Stmt != nil {
+			m.Apply(*step.Stmt)
+		}
+		// (1) no flusher event between two storage accesses of this statement
+		f, l := atomic.LoadInt64(&firstSess), atomic.LoadInt64(&lastSess)
+		mu.Lock()
+		for k, fs := range flusherSeqs {
+			if f != 0 && fs > f && fs < l {
+				violations = append(violations, fmt.Sprintf("%s on the flusher goroutine in the middle of statement %d (between two of its storage accesses: the statement bracket was not held)", flusherWhat[k], i))
+				break
+			}
+		}
+		flusherSeqs, flusherWhat = nil, nil
+		mu.Unlock()
+		// (2) a DML or SELECT statement never writes the data file itself
+		if w := atomic.LoadInt64(&stmtWrites); w > 0 {
+			mu.Lock()
+			violations = append(violations, fmt.Sprintf("statement %d wrote %d page(s)/header to the data file on the session goroutine before its log append completed", i, w))
+			mu.Unlock()
 		}
 		if atomic.LoadInt64(&didPark) != 0 && step.Stmt != nil {
 			parkedDML++
@@ -256,8 +315,10 @@ func c13Run(c c13Case, st *vlib.Stats) string {
 	time.Sleep(30 * time.Millisecond)
 	atomic.StoreInt64(&parkMs, 0)
 	// contents must still be right (a flush in the wrong place can also lose data)
-	if msg := CompareAll(eng, m, nil); msg != "" {
-		return "after the schedule: " + msg
+	if !stopped {
+		if msg := CompareAll(eng, m, nil); msg != "" {
+			return "after the schedule: " + msg
+		}
 	}
 	mu.Lock()
 	v := append([]string{}, violations...)
